@@ -72,7 +72,10 @@ def gen(rng: random.Random, tier: str, idx: int) -> dict:
                                for _ in range(k)]})
     setup = [{"kind": "append", "tag": f"s{k}", "n": 1} for k in range(rng.randint(1, 3))]
     return {"backend": "s3", "setup": setup, "actors": actors, "faults": faults, "grant_all": rng.random() < 0.5,
-            "policy": common.gen_policy(rng, 800)}
+            "policy": common.gen_policy(rng, 800),
+            # the table's pointer object is LOST before the committers start (a state the library supports: it recovers
+            # the current version by scanning metadata/): the first commit's pointer write is a create-if-absent
+            "pointer_lost": rng.random() < 0.15}
 
 
 def shrink(plan: dict):
@@ -111,6 +114,11 @@ def execute(plan: dict, scratch: str, replay: Optional[dict] = None) -> dict:
         w.store.keep_history = True
         w.store.history = []
         chk = RefineChecker(w, commit_order=order0)
+        if plan.get("pointer_lost"):
+            w.store.bucket(w.bucket).pop(f"{w.prefix}/{ir.HINT}", None)
+            w.resync_hint()
+            chk.fallback = st0
+            sim.probe("pointer_lost_start")
         byproc = {}
         for a in plan["actors"]:
             byproc.setdefault(a["proc"], []).append(a)
@@ -140,6 +148,8 @@ def execute(plan: dict, scratch: str, replay: Optional[dict] = None) -> dict:
             lw = sim.extra.get("lock_writes", [])
             lr = sim.extra.get("lock_reads", [])
             for fl in w.flips:
+                if fl.get("restore"):
+                    continue       # re-creation of a lost pointer naming the current version: not a commit point
                 root = fl["actor"].split("/")[0]
                 ids = [b for (_g, a, b, _m) in lw if a.split("/")[0] == root and _g < fl["gstep"]]
                 myid = ids[-1] if ids else None
@@ -173,8 +183,9 @@ def execute(plan: dict, scratch: str, replay: Optional[dict] = None) -> dict:
     nontrivial = (p["cas_conflict"] + p["lock_takeover"] + p["fence_failed"]) > 0 and len(w.flips) >= 2
     for v in V:
         kinds = sorted({h["op"]["kind"] for h in w.history if h.get("flips") and v.get("flip") in h.get("flips", [])})
-        v["sig"] = f"{v['clause']}|{'+'.join(kinds) if kinds else '-'}|{'grantall' if plan.get('grant_all') else 'caslock'}"
-    cfg = "s3/" + ("grantall" if plan.get("grant_all") else "caslock")
+        v["sig"] = (f"{v['clause']}|{'+'.join(kinds) if kinds else '-'}|{'grantall' if plan.get('grant_all') else 'caslock'}"
+                    + ("|pointer_lost" if plan.get("pointer_lost") else ""))
+    cfg = "s3/" + ("grantall" if plan.get("grant_all") else "caslock") + ("/pointer_lost" if plan.get("pointer_lost") else "")
     res = common.assemble(ph, V, nontrivial, cfg, common.trace_sample(ph, plan), chk.state_sigs)
     w.cleanup()
     return res
